@@ -448,7 +448,9 @@ def consistency(name, theta, A, xs, ps, ref, lo):
     if circ:
         inside = (xs >= theta["mu"] - np.pi) & (xs <= theta["mu"] + np.pi)
     c, xc = cdf[inside], xs[inside]
-    if np.any(np.isnan(c)) or np.any(c < 0) or np.any(c > 1):
+    # a few units in the last place are rounding of the scipy leaf (vonmises.cdf(mu + pi) = 1.0000000000000002), not a
+    # probability outside [0, 1]
+    if np.any(np.isnan(c)) or np.any(c < -8 * np.finfo(float).eps) or np.any(c > 1 + 8 * np.finfo(float).eps):
         bad.append((_sig(name, "cdf", "range_0_1"), f"cdf values {c.tolist()} at {xc.tolist()}"))
     if np.any(np.diff(c) < -1e-15):
         j = int(np.argmin(np.diff(c)))
